@@ -268,6 +268,21 @@ def check(ctx) -> None:
             conds = _enclosing_conditions(_stmt(u), rm)
             foreign = [f"{'' if pol else 'not '}{norm(t)}" for t, pol in conds if not (pol and re.search(rf"\.{k}$", norm(t).split(" in ")[-1]))]
             ctx.check("C18.non-holding", _stmt(u), not foreign, f"removal of `{k}` assertions also depends on `{'; '.join(foreign)}`: when a statement has both failed and erroring assertions only one kind is removed and the other is exported", what=f"`{k}` removal guarded only by its own membership test")
+    # the filter is applied to every re-executed test case: its call is not conditional on what the result looks like
+    ag = repo.module(AG)
+    callers = [(qn, c) for qn, f in ag.functions.items() for c in own_nodes(f) if isinstance(c, ast.Call) and last_attr(c) and last_attr(c).endswith("remove_non_holding_assertions")]
+    if not callers:
+        raise AnalysisError("no call of __remove_non_holding_assertions found")
+    for qn, c in callers:
+        f = ag.functions[qn]
+        conds = [norm(t) for t, _pol in _enclosing_conditions(_stmt(c), f)]
+        skips = []
+        p_ = parent(_stmt(c))
+        while p_ is not None and p_ is not f:
+            if isinstance(p_, (ast.For, ast.While)):
+                skips += [norm(i.test) for i in p_.body if isinstance(i, ast.If) and i.lineno < c.lineno and any(isinstance(x, (ast.Continue, ast.Break)) for x in ast.walk(i))]
+            p_ = parent(p_)
+        ctx.check("C18.non-holding", c, not conds and not skips, f"{qn}: the assertions of a re-executed test case are only filtered under `{'; '.join(conds + skips)[:100]}`: for the other test cases assertions that do not hold (a NaN comparison, a value that differs between executions) stay on the test; a test that ends in an expected exception is exported inside pytest.raises and must pass", what=f"{qn}: every re-executed test case is filtered", stmt=f"[{qn}] filter call")
     rem = [n for n in own_nodes(rm) if isinstance(n, ast.Call) and norm(n.func).endswith("assertions.remove")]
     ok = len(rem) == 1 and not [c for c in _enclosing_conditions(_stmt(rem[0]), rm)]
     ctx.check("C18.non-holding", rm, ok, "collected positions are not all removed from statement.assertions", what="every collected position removed", stmt="[remove]")
